@@ -169,6 +169,66 @@ def run(R):
                         'target field %s of %s is initialised from %s (must derive from the source\'s field %s)' % (fname, a.get('adt'), show(v)[:100], fname))
         R.floor('C20.R3', 'From-pair fields', n, 40)
 
+    # ---------------------------------------------------------------- R3b the one lossy conversion loses only what the wire type cannot hold
+    R.describe('C20.R3b', 'RetryInfo -> google.rpc.RetryInfo: the delay is converted by prost_types::Duration::try_from (lossless for every representable duration); only its Err arm substitutes the maximum (315576000000 s, 999999999 ns); None stays None')
+    with R.guard('C20.R3b'):
+        cb = [b for b in ty.bodies if b.kind == 'fn' and re.search(r'impl std::convert::From<[^>]*std_messages::retry_info::RetryInfo> for generated::google_rpc::RetryInfo>::from$', b.path)]
+        if len(cb) != 1:
+            raise CheckError('ANCHOR-MISSING: From<RetryInfo> for pb::RetryInfo matched %d bodies' % len(cb))
+        b = cb[0]
+        R.saw(b)
+        meta = {}
+        seen = set()
+        for cons, path in mirlib.path_rows(b, meta=meta):
+            v = cons_view(cons, meta)
+            terms = meta.get('__terms__', {})
+            src = view_get(v, lambda k: k.startswith('discr(') and terms.get(k) and mentions_field(terms[k], 'retry_delay') and not term_contains(terms[k], lambda x: is_call(x, name='try_from')))
+            conv = view_get(v, lambda k: k.startswith('discr(') and terms.get(k) and term_contains(terms[k], lambda x: is_call(x, name='try_from')))
+            val = mirlib.simplify(b.ret_on_path(path))
+            parts = [x for x in built_parts(val) if x[1].get('adt', '').endswith('RetryInfo')]
+            fv = strip_refs(mirlib.simplify(parts[0][2][parts[0][1]['fields'].index('retry_delay')])) if parts else ('?',)
+            st = site(b, path[-1])
+            seen.add((src, conv))
+            if src == 'None':
+                R.check(fv[0] == 'agg' and fv[1].get('variant') == 'None', 'C20.R3b', 'none->none', st, 'no delay -> no delay: %s' % show(fv)[:60])
+            elif src == 'Some' and conv == 'Ok':
+                inner = strip_refs(fv[2][0]) if fv[0] == 'agg' and fv[1].get('variant') == 'Some' else ('?',)
+                okc = term_contains(inner, lambda x: is_call(x, name='try_from') and 'Duration' in str(x[4].get('resolved') or x[4].get('fn')) and mentions_field(x, 'retry_delay')) and inner[0] != 'agg'
+                R.check(okc, 'C20.R3b', 'representable->try_from', st, 'a representable delay is the Ok payload of prost_types::Duration::try_from(delay): %s' % show(inner)[:100])
+            elif src == 'Some' and conv == 'Err':
+                inner = strip_refs(fv[2][0]) if fv[0] == 'agg' and fv[1].get('variant') == 'Some' else ('?',)
+                okm = inner[0] == 'agg' and [const_val(x) for x in inner[2]] == [315576000000, 999999999]
+                R.check(okm, 'C20.R3b', 'too-large->max', st, 'an unrepresentable delay becomes Duration{seconds: 315576000000, nanos: 999999999}: %s' % show(inner)[:100])
+            else:
+                R.bad('C20.R3b', 'conversion-shape', st, 'a path builds retry_delay = %s without going through prost_types::Duration::try_from (source %r, conversion %r): a hand-written range test decides which delays are altered' % (show(fv)[:80], src, conv), kind='UNRECOGNISED')
+        R.check({('None', None), ('Some', 'Ok'), ('Some', 'Err')} <= seen, 'C20.R3b', 'rows', site(b), 'rows seen: %r' % sorted(map(str, seen)))
+
+    # ---------------------------------------------------------------- R6 a status recovered from an error chain keeps its details
+    R.describe('C20.R6', 'Status::from_error / try_from_error: the Status found in a source chain is copied with its code, message, details and metadata (Status is not Clone; only `source` is left behind)')
+    with R.guard('C20.R6'):
+        tonic = R.crate('tonic')
+        fs = tonic.body('status::find_status_in_source_chain')
+        R.saw(fs)
+        ags = [x for x in mirlib.aggregates(fs, 'status::Status') if x[3].get('kind') == 'adt']
+        ctor = [(bb, t) for bb, t in fs.calls(pat='status::Status::') if t.get('name') in ('new', 'with_metadata', 'with_details', 'with_details_and_metadata')]
+        nfa = 0
+        for ag in ags:
+            if term_contains(fs.origin(ag[4][ag[3]['fields'].index('code')]), lambda x: is_call(x, name='downcast_ref')):
+                for fname in ('code', 'message', 'details', 'metadata'):
+                    v = fs.origin(ag[4][ag[3]['fields'].index(fname)])
+                    nfa += 1
+                    R.check(fname in [x[2] for x in find_terms(v, lambda x: x and x[0] == 'field')], 'C20.R6', 'recovered:%s' % fname, site(fs, ag[0], ag[1]), 'field %s of the recovered status comes from the found status: %s' % (fname, show(v)[:80]))
+        for bb, t in ctor:
+            if not any(term_contains(fs.origin(a_), lambda x: is_call(x, name='downcast_ref')) for a_ in t['args']):
+                continue
+            got = set()
+            for a_ in t['args']:
+                got.update(x[2] for x in find_terms(fs.origin(a_), lambda x: x and x[0] == 'field'))
+            for fname in ('code', 'message', 'details', 'metadata'):
+                nfa += 1
+                R.check(fname in got, 'C20.R6', 'recovered:%s' % fname, site(fs, bb), 'Status::%s(..) is given the found status\'s %s: %r (arguments use %r)' % (t['name'], fname, fname in got, sorted(got)))
+        R.floor('C20.R6', 'fields of the recovered status', nfa, 4)
+
     # ---------------------------------------------------------------- R4 inner status = outer status
     R.describe('C20.R4', 'the embedded google.rpc.Status is built from the same code and message as the outer tonic::Status, always (also with no details attached)')
     with R.guard('C20.R4'):
